@@ -31,6 +31,21 @@ func (e *Engine) globalInit(s *State, g *ssa.Global) Value {
 		if n.Name != g.Name() || i >= len(spec.Values) {
 			continue
 		}
+		// var errX = errors.New("...") / fmt.Errorf("..."): a sentinel error, never reassigned: some non-nil error value
+		if call, ok := spec.Values[i].(*ast.CallExpr); ok {
+			if sel, ok := call.Fun.(*ast.SelectorExpr); ok {
+				if id, ok := sel.X.(*ast.Ident); ok && ((id.Name == "errors" && sel.Sel.Name == "New") || (id.Name == "fmt" && sel.Sel.Name == "Errorf")) {
+					et := g.Type().(*types.Pointer).Elem()
+					if isErrorType(et) {
+						v := s.symValue(et, "global."+g.Name())
+						if iv, ok := v.(*IfaceV); ok {
+							s.assume(Ne(iv.Type, Const(32, 0)))
+							return iv
+						}
+					}
+				}
+			}
+		}
 		// time.Date(2015, 1, 1, 0, 0, 0, 0, time.UTC)
 		if call, ok := spec.Values[i].(*ast.CallExpr); ok {
 			if sel, ok := call.Fun.(*ast.SelectorExpr); ok && sel.Sel.Name == "Date" {
